@@ -24,7 +24,8 @@ macro "b_close" : tactic => `(tactic| (
   (try simp only [exec_proj, upd_same, Q.claim_fold, Q.bump_fold] at *)
   first
     | done
-    | grind [upd, Pc.plain, claimPc, dispatchPc, PopCtx.onEmpty, Item.isTask,
+    | grind [upd, Pc.plain, claimPc, dispatchPc, PopCtx.onEmpty, Item.isTask, afterLdRunS, afterLdRunB, afterJoinW,
+        afterSubmit, afterSize,
         Q.stAt_setSt, Q.stAt_take, Q.length_take, Q.length_setSt, Q.popIdx_setSt, Q.popIdx_take,
         Q.stAt_bump, Q.popIdx_bump, Q.length_bump, Q.stAt_some_lt]))
 
@@ -101,13 +102,19 @@ theorem Inv2b.step_l9 (I : Inv1 c s) (J : Inv2 c s) (B : Inv2b s) (h : StepCase 
   have hwf := I.wf t
   have hne : ∀ n x k, markChain c n ≠ .gTake x (.bSweep k) := by
     intro n x k hh
-    rcases markChain_cases c n with h1 | h1 | ⟨m, h1⟩ <;> rw [h1] at hh <;> cases hh
-    rcases markChain_cases c m with h2 | h2 | ⟨m', h2⟩ <;> simp_all
+    rcases markChain_cases c n with h1 | h1 | ⟨m, h1⟩
+    · rw [h1] at hh; cases hh
+    · rw [h1] at hh; cases hh
+    · rw [h1] at hh
+      injection hh with _ hk2
+      have := markChain_role c m
+      rw [hk2] at this; simp [Pc.role] at this
   have hk : ∀ p k0, s.pc t = .gPub p k0 → ∀ x k, k0 ≠ .gTake x (.bSweep k) := by
     intro p k0 hp x k hh
-    rw [hp] at hwf; subst hh
-    simp [PcWF, ContOK] at hwf
-    obtain ⟨_, n, hn⟩ := hwf
+    rw [hp, hh] at hwf
+    have hwf' : ((none : Option Item) = none ∨ (none : Option Item) = some .stop) ∧
+        ∃ n, Pc.gTake x (.bSweep k) = markChain c n := hwf
+    obtain ⟨_, n, hn⟩ := hwf'
     exact hne n x k hn.symm
   have has : ∀ x k, afterStore c ≠ .gTake x (.bSweep k) := by
     intro x k; unfold afterStore; split
@@ -122,6 +129,9 @@ theorem Inv2b.step_l9 (I : Inv1 c s) (J : Inv2 c s) (B : Inv2b s) (h : StepCase 
   case wRecv i0 cl hpc hcell hfull =>
     clear hcell l4
     cases hx : cl.item <;> simp only [hx] at * <;> b_close
+  case popEmpty ctx i0 k0 hpc hq hi0 =>
+    clear l4
+    cases ctx <;> b_close
   all_goals (clear l4; try b_close)
   all_goals (trace_state; sorry)
 
